@@ -20,16 +20,16 @@ PROP = 'C03'
 TYPES = ['p2pk', 'multisig', 'p2pkh', 'p2sh-multisig', 'p2sh-hashlock', 'p2wpkh', 'p2wsh', 'p2sh-p2wpkh', 'p2sh-p2wsh', 'p2tr-key', 'p2tr-script', 'p2wsh-timelock', 'p2sh-timelock',  'p2wsh-hashlock', 'witness-program', 'odd-spk', 'bare-spk']
 SEGWIT = {'witness-program', 'odd-spk', 'p2wpkh', 'p2wsh', 'p2sh-p2wpkh', 'p2sh-p2wsh', 'p2tr-key', 'p2tr-script', 'p2wsh-timelock', 'p2wsh-hashlock'}
 SATS = {
-    'p2pk': ['valid', 'wrong-key', 'altered-output', 'altered-sequence', 'altered-locktime', 'non-push-scriptsig', 'leftover-stack', 'unexpected-witness', 'split-conditional', 'altstack-carry', 'wrong-amount',
+    'p2pk': ['valid', 'undefined-hashtype', 'wrong-key', 'altered-output', 'altered-sequence', 'altered-locktime', 'non-push-scriptsig', 'leftover-stack', 'unexpected-witness', 'split-conditional', 'altstack-carry', 'wrong-amount',
              'opcount-201-in-each-script', 'opcount-202-in-scriptpubkey', 'opcount-202-in-scriptsig', 'other-input-has-witness'],
-    'multisig': ['valid', 'wrong-key', 'wrong-order', 'altered-output', 'missing-sig', 'nonempty-dummy', 'leftover-stack'],
-    'p2pkh': ['valid', 'wrong-key', 'wrong-pubkey-hash', 'altered-output', 'altered-locktime', 'unexpected-witness', 'leftover-stack', 'wrong-amount', 'other-input-has-witness'],
-    'p2sh-multisig': ['valid', 'wrong-key', 'wrong-script-hash', 'altered-output', 'non-push-scriptsig', 'leftover-stack', 'wrong-order', 'other-input-has-witness'],
+    'multisig': ['valid', 'undefined-hashtype', 'wrong-key', 'wrong-order', 'altered-output', 'missing-sig', 'nonempty-dummy', 'leftover-stack'],
+    'p2pkh': ['valid', 'undefined-hashtype', 'wrong-key', 'wrong-pubkey-hash', 'altered-output', 'altered-locktime', 'unexpected-witness', 'leftover-stack', 'wrong-amount', 'other-input-has-witness'],
+    'p2sh-multisig': ['valid', 'undefined-hashtype', 'wrong-key', 'wrong-script-hash', 'altered-output', 'non-push-scriptsig', 'leftover-stack', 'wrong-order', 'other-input-has-witness'],
     'p2sh-hashlock': ['valid', 'wrong-preimage', 'wrong-script-hash', 'non-push-scriptsig', 'leftover-stack'],
-    'p2wpkh': ['valid', 'wrong-key', 'wrong-pubkey-hash', 'wrong-amount', 'altered-output', 'altered-sequence', 'extra-witness-item', 'missing-witness-item', 'nonempty-scriptsig', 'uncompressed-key', 'empty-witness'],
-    'p2wsh': ['valid', 'wrong-key', 'wrong-script-hash', 'wrong-amount', 'altered-output', 'extra-witness-item', 'missing-witness-item', 'witness-item-521', 'leftover-stack', 'nonempty-scriptsig', 'false-result'],
-    'p2sh-p2wpkh': ['valid', 'wrong-key', 'wrong-script-hash', 'wrong-amount', 'altered-locktime', 'scriptsig-trailing-op', 'scriptsig-nonminimal-push', 'extra-witness-item', 'empty-witness'],
-    'p2sh-p2wsh': ['valid', 'wrong-key', 'wrong-script-hash', 'wrong-witness-script-hash', 'wrong-amount', 'scriptsig-trailing-op', 'leftover-stack'],
+    'p2wpkh': ['valid', 'undefined-hashtype', 'wrong-key', 'wrong-pubkey-hash', 'wrong-amount', 'altered-output', 'altered-sequence', 'extra-witness-item', 'missing-witness-item', 'nonempty-scriptsig', 'uncompressed-key', 'empty-witness'],
+    'p2wsh': ['valid', 'undefined-hashtype', 'wrong-key', 'wrong-script-hash', 'wrong-amount', 'altered-output', 'extra-witness-item', 'missing-witness-item', 'witness-item-521', 'leftover-stack', 'nonempty-scriptsig', 'false-result'],
+    'p2sh-p2wpkh': ['valid', 'undefined-hashtype', 'wrong-key', 'wrong-script-hash', 'wrong-amount', 'altered-locktime', 'scriptsig-trailing-op', 'scriptsig-nonminimal-push', 'extra-witness-item', 'empty-witness'],
+    'p2sh-p2wsh': ['valid', 'undefined-hashtype', 'wrong-key', 'wrong-script-hash', 'wrong-witness-script-hash', 'wrong-amount', 'scriptsig-trailing-op', 'leftover-stack'],
     'p2tr-key': ['valid', 'wrong-key', 'wrong-amount', 'altered-output', 'altered-sequence', 'annex', 'annex-unsigned', 'hashtype-single', 'bad-sig-size', 'multi-input', 'sig-first-byte-0x50', 'empty-witness'],
     'p2tr-script': ['valid', 'wrong-key', 'wrong-amount', 'altered-output', 'control-parity', 'control-internal-key', 'control-node', 'control-leaf-version', 'control-truncated', 'wrong-script', 'annex',
                     'extra-witness-item', 'leftover-stack', 'false-result', 'op-success', 'unknown-leaf-version', 'empty-script', 'multi-input', 'many-checks', 'many-checks-annex', 'p2sh-shaped-leaf',
@@ -305,6 +305,11 @@ def build(rng, otype, sat):
     spent = [(amount, spk) if i == idx else (rng.choice([1, 999]), rsign.spk_p2tr(rsign.rnd_bytes(rng, 32))) for i in range(nin)]
     signer = sk if sat != 'wrong-key' else rsign.rnd_sk(rng)
     ht = 1 if rng.random() < 0.8 else rng.choice([2, 3, 0x81, 0x82, 0x83])
+    if sat == 'undefined-hashtype':
+        # a hash type byte outside {1,2,3,0x81,0x82,0x83}: refused under STRICTENC, otherwise classified by its low five bits
+        # (legacy and BIP143 alike) - consensus-valid without STRICTENC
+        ht = rng.choice([0, 4, 5, 6, 7, 0x0a, 0x0b, 0x1e, 0x1f, 0x20, 0x22, 0x23, 0x42, 0x43, 0x46, 0x47, 0x62, 0x63, 0x80, 0x84, 0x86, 0x87, 0xa2, 0xa3, 0xc2, 0xe3, 0xfe, 0xff,
+                         rng.choice([h for h in range(256) if (h & ~0x80) not in (1, 2, 3)])])
     ssig = b''
     wit = []
 
@@ -573,6 +578,8 @@ def worker(job):
                 continue
             sc['otype'], sc['sat'] = otype, sat
             sc['flags'], sc['flagmod'] = pick_flags(rng, otype)
+            if sat == 'undefined-hashtype' and rng.random() < 0.8:
+                sc['flags'], sc['flagmod'] = STANDARD & ~F["STRICTENC"], '-STRICTENC'
             sel = rng.random()
             sc['select'] = -1 if sel < 0.5 else sc['idx']
             sc['id'] = 'v%d.%d' % (idx, i)
